@@ -321,6 +321,26 @@ static void eval_mutant(mctx_t *mc, const uint8_t *h, const char *what)
             if (rrc != -EBADHEADER) mon_viol("C09", "reconstruct-accepted-bad-header", "%s: reconstruct returned %d for a header that is %s (want -EBADHEADER)", what, rrc, !acc ? "invalid" : "in opposite byte order");
         } else if (rrc != 0 || memcmp(of, s->frag[dest], s->flen))
             mon_viol("C09", "padding-edit-changed-reconstruct", "%s: reconstruct rc=%d after a padding-only edit", what, rrc);
+        /* the bad header is refused "before any field is used": also when the destination is itself among the supplied
+         * fragments (another index, or the mutant), and when far too few fragments are supplied */
+        if (!acc || !host) {
+            for (int var = 0; var < 3; var++) {
+                cnt = 0; int d2;
+                if (var == 0) { d2 = (mc->fidx + 2) % n; for (int i = 0; i < n; i++) list[cnt++] = (char *)(i == mc->fidx ? f : s->frag[i]); }
+                else if (var == 1) { d2 = mc->fidx; for (int i = 0; i < n; i++) list[cnt++] = (char *)(i == mc->fidx ? f : s->frag[i]); }
+                else { d2 = (mc->fidx + 1) % n; list[cnt++] = (char *)f; if (n > 2) list[cnt++] = (char *)s->frag[(mc->fidx + 2) % n]; }
+                int r3 = liberasurecode_reconstruct_fragment(mc->x->desc, list, cnt, s->flen, d2, (char *)of);
+                mon_count("evaluations", 1); mon_count("reconstructs_on_mutants", 1);
+                if (r3 != -EBADHEADER) { mon_viol("C09", "reconstruct-accepted-bad-header", "%s: reconstruct (%s) returned %d for a header that is %s (want -EBADHEADER)", what,
+                                                  var == 0 ? "destination supplied, another index" : var == 1 ? "destination is the bad fragment itself" : "only two fragments supplied", r3, !acc ? "invalid" : "in opposite byte order"); break; }
+            }
+            /* decode with too few fragments */
+            { char *out2 = NULL; uint64_t ol2 = 0; cnt = 0; list[cnt++] = (char *)f;
+              int d3 = liberasurecode_decode(mc->x->desc, list, cnt, s->flen, 0, &out2, &ol2);
+              mon_count("evaluations", 1); mon_count("decodes_on_mutants", 1);
+              if (d3 == 0) { mon_viol("C09", "decode-accepted-bad-header", "%s: decode of the bad fragment alone returned 0", what); liberasurecode_decode_cleanup(mc->x->desc, out2); }
+              else if (d3 != -EBADHEADER && mc->x->c.k == 1) mon_viol("C09", "decode-accepted-bad-header", "%s: decode of the bad fragment alone (k=1) returned %d (want -EBADHEADER)", what, d3); }
+        }
         free(of);
         if (memcmp(f, before, s->flen)) mon_viol("C09", "consumer-modified-fragment", "%s: fragment bytes changed by decode/reconstruct", what);
     }
@@ -573,6 +593,25 @@ static void run_checksum(void)
                             }
                             mon_end();
                         }
+                    }
+                    /* the same fragments as an opposite-endian host would have written them: mismatch reported exactly when the
+                     * payload is damaged (the checksum is taken over the byte-swapped size, compared with the byte-swapped word) */
+                    if (mon_case("%s|len=%llu|frag=%d|opposite-endian-checksums", x.ck, (unsigned long long)s->len, f0)) {
+                        rng_t r; rng_case(&r);
+                        for (int q = 0; q < 8; q++) {
+                            int fi = (f0 + q) % n;
+                            memcpy(f, s->frag[fi], s->flen);
+                            uint8_t tw[80]; int lg = ref_get32(f + REF_OFF_MCRC) == crc_legacy(f, 59) && ref_get32(f + REF_OFF_MCRC) != crc_std(f, 59);
+                            ref_hdr_twin(f, tw, lg); memcpy(f, tw, 80);
+                            int damaged = q & 1;
+                            if (damaged && P) f[80 + rng_below(&r, (uint32_t)P)] ^= (uint8_t)(1u << rng_below(&r, 8));
+                            fragment_metadata_t md; int rc = liberasurecode_get_fragment_metadata((char *)f, &md);
+                            mon_count("evaluations", 1); mon_count("twin_checksum_queries", 1);
+                            if (rc != 0) mon_viol("C10", "metadata-query-failed", "opposite-endian copy of fragment %d: rc=%d", fi, rc);
+                            else if ((md.chksum_mismatch != 0) != (damaged && P)) mon_viol("C10", damaged ? "mismatch-not-reported" : "false-mismatch", "opposite-endian copy of fragment %d (%s payload): chksum_mismatch=%d", fi, damaged ? "damaged" : "intact", md.chksum_mismatch);
+                            mon_distinct("nontrivial", mon_hash(f, 80, 54 + (uint64_t)damaged));
+                        }
+                        mon_end();
                     }
                     int nb = MO.thorough ? 1500 : 30;
                     if (mon_case("%s|len=%llu|frag=%d|payload-bursts", x.ck, (unsigned long long)s->len, f0)) {
